@@ -89,12 +89,22 @@ def file_hash(p):
 def regen(log):
     """Rebuild harness binaries from /repo's working tree and regenerate QRV/Gen.
     Returns dict(ok, changed, mismatches, error)."""
-    res = {'ok': True, 'changed': [], 'mismatches': [], 'error': ''}
+    res = {'ok': True, 'changed': [], 'mismatches': [], 'error': '', 'dropped_groups': []}
     r = sh([os.path.join(V, 'bin', 'buildgo')], env=GOENV)
     if r.returncode != 0:
         res['ok'] = False
         res['error'] = 'go build of the harness against /repo failed:\n' + r.stdout[-4000:]
         return res
+    try:
+        have = open(os.path.join(B, 'harness_groups.txt')).read().split()
+    except OSError:
+        have = []
+    res['dropped_groups'] = [g for g in ('verif_fmt',) if g not in have]
+    if res['dropped_groups']:
+        try:
+            res['dropped_reason'] = open(os.path.join(B, 'build-full.err')).read()[:600]
+        except OSError:
+            res['dropped_reason'] = ''
     if not os.path.exists(os.path.join(B, 'translator')):
         r = sh(['go', 'build', '-o', os.path.join(B, 'translator'), '.'], cwd=os.path.join(V, 'translator'), env=GOENV)
         if r.returncode != 0:
